@@ -241,7 +241,16 @@ fn addsub<const N: usize>(cx: &mut Cx, iters: usize) {
         if it % 10 == 0 {
             // a none operand stays none
             cx.call(ev("checked.op_add_none_lhs", "chk").i("an", 1), || o_chk(none_chk(a) + Checked::new(b)));
+            cx.call(ev("checked.op_add_none_lhs_rv", "chk").i("an", 1), || o_chk(&none_chk(a) + Checked::new(b)));
+            cx.call(ev("checked.op_add_none_lhs_vr", "chk").i("an", 1), || o_chk(none_chk(a) + &Checked::new(b)));
+            cx.call(ev("checked.op_add_none_lhs_rr", "chk").i("an", 1), || o_chk(&none_chk(a) + &Checked::new(b)));
+            cx.call(ev("checked.op_add_none_lhs_assign_r", "chk").i("an", 1), || { let mut t = none_chk(a); t += &Checked::new(b); o_chk(t) });
             cx.call(ev("checked.op_add_none_rhs", "chk").i("bn", 1), || o_chk(Checked::new(a) + none_chk(b)));
+            cx.call(ev("checked.op_add_none_rhs_rv", "chk").i("bn", 1), || o_chk(&Checked::new(a) + none_chk(b)));
+            cx.call(ev("checked.op_add_none_rhs_vr", "chk").i("bn", 1), || o_chk(Checked::new(a) + &none_chk(b)));
+            cx.call(ev("checked.op_add_none_rhs_rr", "chk").i("bn", 1), || o_chk(&Checked::new(a) + &none_chk(b)));
+            cx.call(ev("checked.op_add_none_rhs_assign_r", "chk").i("bn", 1), || { let mut t = Checked::new(a); t += &none_chk(b); o_chk(t) });
+            cx.call(ev("checked.op_add_none_rhs_assign_v", "chk").i("bn", 1), || { let mut t = Checked::new(a); t += none_chk(b); o_chk(t) });
         }
         // ---------------- sub
         let (av, bv) = addsub_pair(&mut cx.rng, N, true);
@@ -271,7 +280,16 @@ fn addsub<const N: usize>(cx: &mut Cx, iters: usize) {
         }
         if it % 10 == 0 {
             cx.call(ev("checked.op_sub_none_lhs", "chk").i("an", 1), || o_chk(none_chk(a) - Checked::new(b)));
+            cx.call(ev("checked.op_sub_none_lhs_rv", "chk").i("an", 1), || o_chk(&none_chk(a) - Checked::new(b)));
+            cx.call(ev("checked.op_sub_none_lhs_vr", "chk").i("an", 1), || o_chk(none_chk(a) - &Checked::new(b)));
+            cx.call(ev("checked.op_sub_none_lhs_rr", "chk").i("an", 1), || o_chk(&none_chk(a) - &Checked::new(b)));
+            cx.call(ev("checked.op_sub_none_lhs_assign_r", "chk").i("an", 1), || { let mut t = none_chk(a); t -= &Checked::new(b); o_chk(t) });
             cx.call(ev("checked.op_sub_none_rhs", "chk").i("bn", 1), || o_chk(Checked::new(a) - none_chk(b)));
+            cx.call(ev("checked.op_sub_none_rhs_rv", "chk").i("bn", 1), || o_chk(&Checked::new(a) - none_chk(b)));
+            cx.call(ev("checked.op_sub_none_rhs_vr", "chk").i("bn", 1), || o_chk(Checked::new(a) - &none_chk(b)));
+            cx.call(ev("checked.op_sub_none_rhs_rr", "chk").i("bn", 1), || o_chk(&Checked::new(a) - &none_chk(b)));
+            cx.call(ev("checked.op_sub_none_rhs_assign_r", "chk").i("bn", 1), || { let mut t = Checked::new(a); t -= &none_chk(b); o_chk(t) });
+            cx.call(ev("checked.op_sub_none_rhs_assign_v", "chk").i("bn", 1), || { let mut t = Checked::new(a); t -= none_chk(b); o_chk(t) });
         }
     }
 }
@@ -440,7 +458,16 @@ fn mul_checked<const N: usize>(cx: &mut Cx, iters: usize) {
         cx.call(ev("checked.op_mul_assign_r", "chk"), || { let mut t = ca; t *= &cb_; o_chk(t) });
         if it % 8 == 0 {
             cx.call(ev("checked.op_mul_none_lhs", "chk").i("an", 1), || o_chk(none_chk(a) * Checked::new(b)));
+            cx.call(ev("checked.op_mul_none_lhs_rv", "chk").i("an", 1), || o_chk(&none_chk(a) * Checked::new(b)));
+            cx.call(ev("checked.op_mul_none_lhs_vr", "chk").i("an", 1), || o_chk(none_chk(a) * &Checked::new(b)));
+            cx.call(ev("checked.op_mul_none_lhs_rr", "chk").i("an", 1), || o_chk(&none_chk(a) * &Checked::new(b)));
+            cx.call(ev("checked.op_mul_none_lhs_assign_r", "chk").i("an", 1), || { let mut t = none_chk(a); t *= &Checked::new(b); o_chk(t) });
             cx.call(ev("checked.op_mul_none_rhs", "chk").i("bn", 1), || o_chk(Checked::new(a) * none_chk(b)));
+            cx.call(ev("checked.op_mul_none_rhs_rv", "chk").i("bn", 1), || o_chk(&Checked::new(a) * none_chk(b)));
+            cx.call(ev("checked.op_mul_none_rhs_vr", "chk").i("bn", 1), || o_chk(Checked::new(a) * &none_chk(b)));
+            cx.call(ev("checked.op_mul_none_rhs_rr", "chk").i("bn", 1), || o_chk(&Checked::new(a) * &none_chk(b)));
+            cx.call(ev("checked.op_mul_none_rhs_assign_r", "chk").i("bn", 1), || { let mut t = Checked::new(a); t *= &none_chk(b); o_chk(t) });
+            cx.call(ev("checked.op_mul_none_rhs_assign_v", "chk").i("bn", 1), || { let mut t = Checked::new(a); t *= none_chk(b); o_chk(t) });
         }
     }
 }
